@@ -1802,6 +1802,14 @@ func skipStateOf(v ssa.Value, seen map[ssa.Value]bool, out *[]ssa.Value) {
 	case *ssa.MakeMap:
 		*out = append(*out, x)
 	case *ssa.Phi:
+		hb := x.Block()
+		for i, e := range x.Edges {
+			if i < len(hb.Preds) && hb.Dominates(hb.Preds[i]) && e != ssa.Value(x) {
+				if _, isConst := e.(*ssa.Const); !isConst {
+					*out = append(*out, x) // a value carried round the loop this block heads
+				}
+			}
+		}
 		for _, e := range x.Edges {
 			skipStateOf(e, seen, out)
 		}
@@ -1831,21 +1839,109 @@ func linkSkipsArePerVertex(w *World, r *Report, rule string) {
 	n := 0
 	for _, d := range deepCalls(f.fn, byName(nAddEdge), deepDepth) {
 		// levels: the host of AddEdge and every function on the chain, each with the instruction that leads to the edge
+		// and the vertex being linked as that function names it
 		type level struct {
 			fn   *ssa.Function
 			site ssa.Instruction
+			dest ssa.Value
 		}
-		levels := []level{{d.c.Parent(), d.c.(ssa.Instruction)}}
+		_, ea := callArgs(d.c)
+		dest, okDest := vertexOfHashArg(ea[1])
+		if !okDest {
+			r.undecided(rule, "LoadDag/AddEdge-dst", lineOf(w, d.c), "the vertex being linked must be identifiable", pathOf(ea[1]))
+			continue
+		}
+		levels := []level{{d.c.Parent(), d.c.(ssa.Instruction), dest}}
 		for i := len(d.chain) - 1; i >= 0; i-- {
-			levels = append(levels, level{d.chain[i].Parent(), d.chain[i].(ssa.Instruction)})
+			cs := d.chain[i]
+			var up ssa.Value
+			if prm, ok := baseOf(levels[len(levels)-1].dest).(*ssa.Parameter); ok {
+				if cal := cs.Common().StaticCallee(); cal != nil {
+					for k, p := range cal.Params {
+						if p == prm && k < len(cs.Common().Args) {
+							up = cs.Common().Args[k]
+						}
+					}
+				}
+			}
+			levels = append(levels, level{cs.Parent(), cs.(ssa.Instruction), up})
 		}
-		// loopAbove[i]: some call site above level i sits in a loop (the function of level i runs once per iteration)
-		loopAbove := make([]bool, len(levels))
-		for i := len(levels) - 2; i >= 0; i-- {
-			up := levels[i+1]
-			loopAbove[i] = loopAbove[i+1] || onCycleWith(up.site.Block(), up.site.Block())
+		// perVertex(li, b): block b of level li is executed anew for every vertex that is linked
+		perVertex := func(li int, b *ssa.BasicBlock) bool {
+			for k := li; k < len(levels); k++ {
+				base := baseOf(levels[k].dest)
+				if base == nil {
+					return false
+				}
+				if _, isPrm := base.(*ssa.Parameter); isPrm {
+					if k == li {
+						continue // the whole function runs for one vertex: look where it is called from
+					}
+					continue
+				}
+				in, ok := base.(ssa.Instruction)
+				if !ok {
+					return false
+				}
+				if k == li {
+					return in.Block().Dominates(b)
+				}
+				return true // the vertex is taken inside a caller: this whole call belongs to it
+			}
+			return false
 		}
 		bad := ""
+		var judge func(li int, st ssa.Value, iff *ssa.If, seen map[ssa.Value]bool)
+		judge = func(li int, st ssa.Value, iff *ssa.If, seen map[ssa.Value]bool) {
+			if st == nil || seen[st] {
+				return
+			}
+			seen[st] = true
+			lv := levels[li]
+			switch x := st.(type) {
+			case *ssa.Alloc:
+				if !perVertex(li, x.Block()) {
+					bad += fmt.Sprintf(" variable %s, created once at %s, decides the branch at %s that bypasses the link;", x.Comment, w.Pos(x.Pos()), lineOf(w, iff))
+				}
+			case *ssa.MakeMap:
+				if !perVertex(li, x.Block()) {
+					bad += fmt.Sprintf(" a map created once at %s decides the branch at %s that bypasses the link;", w.Pos(x.Pos()), lineOf(w, iff))
+				}
+			case *ssa.Phi:
+				if !perVertex(li, x.Block()) {
+					bad += fmt.Sprintf(" %s (%s) is carried from one vertex to the next and decides the branch at %s that bypasses the link;", x.Name(), x.Comment, lineOf(w, iff))
+				}
+			case *ssa.Parameter:
+				if li+1 < len(levels) {
+					if cs, ok := levels[li+1].site.(ssa.CallInstruction); ok {
+						for k, p := range lv.fn.Params {
+							if p == x && k < len(cs.Common().Args) {
+								var sts []ssa.Value
+								skipStateOf(cs.Common().Args[k], map[ssa.Value]bool{}, &sts)
+								if a, isAlloc := cs.Common().Args[k].(*ssa.Alloc); isAlloc {
+									sts = append(sts, a)
+								}
+								for _, s2 := range sts {
+									judge(li+1, s2, iff, seen)
+								}
+							}
+						}
+					}
+				} else {
+					bad += fmt.Sprintf(" %s is handed into %s, which runs once per load, and decides the branch at %s;", x.Name(), shortFn(lv.fn), lineOf(w, iff))
+				}
+			case *ssa.FreeVar:
+				if cv := capturedCell(x); cv != nil && lv.fn.Parent() != nil {
+					// the cell lives in the enclosing function: judge it there if that function is a level, else by creation
+					for k := range levels {
+						if levels[k].fn == cv.Parent() {
+							judge(k, cv, iff, seen)
+							return
+						}
+					}
+				}
+			}
+		}
 		for li, lv := range levels {
 			siteB := lv.site.Block()
 			for _, b := range lv.fn.Blocks {
@@ -1866,34 +1962,70 @@ func linkSkipsArePerVertex(w *World, r *Report, rule string) {
 				if r0 == r1 || !onCycleWith(b, siteB) {
 					continue
 				}
+				skipSide := b.Succs[0]
+				if r0 {
+					skipSide = b.Succs[1]
+				}
+				if skipSide != b && !reachable([]*ssa.BasicBlock{skipSide}, nil)[b] {
+					continue // the other side gives the load up (cancel, return): nothing is skipped, the load fails
+				}
 				n++
 				var states []ssa.Value
 				skipStateOf(iff.Cond, map[ssa.Value]bool{}, &states)
+				seen := map[ssa.Value]bool{}
 				for _, st := range states {
-					var cb *ssa.BasicBlock
-					switch x := st.(type) {
-					case *ssa.Alloc:
-						cb = x.Block()
-					case *ssa.MakeMap:
-						cb = x.Block()
-					case *ssa.FreeVar, *ssa.Parameter:
-						// handed in from outside this function: lives at least as long as one call of it
-						if !loopAbove[li] {
-							bad += fmt.Sprintf(" %s (handed into %s, which runs once per load) decides the branch at %s;", pathOf(st), shortFn(lv.fn), lineOf(w, iff))
-						}
-						continue
-					}
-					if cb == nil {
-						continue
-					}
-					if loopAbove[li] || onCycleWith(cb, siteB) {
-						continue
-					}
-					bad += fmt.Sprintf(" %s, created once at %s, decides the branch at %s that bypasses the link;", pathOf(st), w.Pos(st.Pos()), lineOf(w, iff))
+					judge(li, st, iff, seen)
 				}
 			}
 		}
 		r.check(bad == "", rule, "LoadDag/AddEdge", lineOf(w, d.c), "what can skip a parent link does not outlive the vertex being linked", bad)
 	}
 	r.Extra["loaddag_skip_branches"] = n
+}
+
+// baseOf strips loads, field and element accesses: the value a path is rooted at.
+func baseOf(v ssa.Value) ssa.Value {
+	for i := 0; i < 20 && v != nil; i++ {
+		switch x := v.(type) {
+		case *ssa.UnOp:
+			v = x.X
+		case *ssa.FieldAddr:
+			v = x.X
+		case *ssa.Field:
+			v = x.X
+		case *ssa.IndexAddr:
+			v = x.X
+		case *ssa.ChangeType:
+			v = x.X
+		case *ssa.MakeInterface:
+			v = x.X
+		default:
+			return v
+		}
+	}
+	return v
+}
+
+// capturedCell: the variable of the enclosing function a free variable stands for.
+func capturedCell(fv *ssa.FreeVar) *ssa.Alloc {
+	fn := fv.Parent()
+	par := fn.Parent()
+	if par == nil {
+		return nil
+	}
+	idx := -1
+	for i, f := range fn.FreeVars {
+		if f == fv {
+			idx = i
+		}
+	}
+	var out *ssa.Alloc
+	instrsOf(par, func(in ssa.Instruction) {
+		if mc, ok := in.(*ssa.MakeClosure); ok && mc.Fn == ssa.Value(fn) && idx >= 0 && idx < len(mc.Bindings) {
+			if a, ok := mc.Bindings[idx].(*ssa.Alloc); ok {
+				out = a
+			}
+		}
+	})
+	return out
 }
